@@ -89,10 +89,12 @@ Fixpoint hadd (l : nat) (c : P3) (st : hst) (node : option nat) (pt : nat) : hst
                   let st2 := set_oct st2 id o2 r2 in
                   (set_pt st2 id (-2), Some id)
               else
-                let st0 := set_pt st id (cpt cell - 1) in
+                (* since /repo 950a4b2 the particle is counted after the recursive call and only if it was inserted
+                   (particles[pt].c != NULL); a refusal is the only way herr_lib grows inside hadd *)
                 let o := octantN c0 (getp st pt) in
-                let '(st1, r) := hadd l' (childc u c0 l' o) st0 (nth o (coct cell) None) pt in
-                (set_oct st1 id o r, Some id)
+                let '(st1, r) := hadd l' (childc u c0 l' o) st (nth o (coct cell) None) pt in
+                if Nat.eqb (herr_lib st1) (herr_lib st) then (set_pt (set_oct st1 id o r) id (cpt cell - 1), Some id)
+                else (st1, Some id)
           end
       end
   end.
@@ -110,7 +112,8 @@ Definition hsim_add (st : hst) (p : hpart) : hst :=
       let cnew := (root_centre h0 nx (root_idx_new h0 nx x), root_centre h0 ny (root_idx_new h0 ny y),
                    root_centre h0 nz (root_idx_new h0 nz z)) in
       let '(st1, r) := hadd L cnew st (nth ri (hroots st) None) n in
-      set_N (set_roots st1 (upd (hroots st1) ri r)) (S n).
+      if Nat.eqb (herr_lib st1) (herr_lib st) then set_N (set_roots st1 (upd (hroots st1) ri r)) (S n)
+      else st1.        (* refused by the tree (identical coordinates): return before N++ *)
 
 (* the recount loop of a node: (pt, test) *)
 Definition recount (st : hst) (oct : list (option nat)) : Z * nat :=
